@@ -24,8 +24,7 @@ type LoadCancelWorld struct {
 	store                               iface.Store
 	want                                []string // payloads that must be listed
 	names                               map[string]string
-	ctx1                                context.Context
-	cancel1                             context.CancelFunc
+	ctx1                                *manualCtx
 	first                               *asyncCall
 	final                               *asyncCall
 	cancelled, issuedFirst, issuedFinal bool
@@ -88,7 +87,7 @@ func NewLoadCancelWorld(shape string) (*LoadCancelWorld, error) {
 	if w.store, err = w.inst.DB.Log(bg, addr, &orbitdb.CreateDBOptions{Replicate: boolp(false)}); err != nil {
 		return nil, err
 	}
-	w.ctx1, w.cancel1 = context.WithCancel(context.Background())
+	w.ctx1 = newManualCtx()
 	w.net.Gates.Enable(func(kind, peer, key, caller string) bool { return kind == "dag.get" && peer == "B" })
 	return w, nil
 }
@@ -111,7 +110,8 @@ func (w *LoadCancelWorld) Enabled() []string {
 		out = append(out, "load:final")
 	}
 	if !w.cancelled && !w.issuedFinal {
-		out = append(out, "cancel:first")
+		// the request is cancelled, or its deadline expires, at this step
+		out = append(out, "cancel:first", "timeout:first")
 	}
 	return out
 }
@@ -136,7 +136,10 @@ func (w *LoadCancelWorld) Do(a string) error {
 		w.final = async("Load(final)", func() error { return w.store.Load(bg, -1) })
 	case a == "cancel:first":
 		w.cancelled = true
-		w.cancel1()
+		w.ctx1.end(context.Canceled)
+	case a == "timeout:first":
+		w.cancelled = true
+		w.ctx1.end(context.DeadlineExceeded)
 	default:
 		return fmt.Errorf("unknown action %q", a)
 	}
@@ -176,7 +179,7 @@ func (w *LoadCancelWorld) Final() []explore.Violation {
 
 func (w *LoadCancelWorld) Close() {
 	w.net.Gates.Enable(nil)
-	w.cancel1()
+	w.ctx1.end(context.Canceled)
 	for i := 0; i < 50 && w.net.Gates.ReleaseAll() > 0; i++ {
 		_ = sim.Quiesce()
 	}
